@@ -695,9 +695,7 @@ def benign_event(ev):
     k = ev[0]
     if k in ('c', 'u', 'fc', 'fu'):
         return True
-    if k == 'cw':
-        return isinstance(ev[1], int) or ev[1] == 'block'
-    if k == 'uw':
+    if k in ('cw', 'uw'):
         return isinstance(ev[1], int) or ev[1] in ('block', 'wantwrite')
     if k in ('cr', 'ur'):
         return ev[1] == 'wantread'
